@@ -32,11 +32,11 @@ func compare(o *gprog.Outcome, res gprog.Val, err error, log []gprog.Entry, stre
 		if stream {
 			return nil
 		}
-		if ic != o.Err {
+		if !gprog.SameClass(o.Err, err) {
 			return fmt.Errorf("model outcome %q, implementation %q (err=%v)", o.Err, ic, err)
 		}
 	default:
-		if ic != o.Err {
+		if !gprog.SameClass(o.Err, err) {
 			return fmt.Errorf("model outcome %q, implementation %q (err=%v, result=%s)", o.Err, ic, err, gprog.Canon(res))
 		}
 	}
